@@ -796,6 +796,68 @@ fn explore_attrs(idx: usize, e: &Entry, first: Option<usize>, thorough: bool, t:
             });
         }
     };
+    // A claimed attribute written in name-value form (`#[a = 5]`) is a reported mistake: exactly
+    // one more leaf than without it, spanned inside that attribute; never skipped, never a crash.
+    if first.is_none() {
+        let others = ["", "#[{N}(alpha = 5)]", "#[{N}(alpha = \"x\", zz)]", "#[doc = \"d\"] #[{N}(alpha = 5, gamma = 1)]"];
+        for nv in ["#[{N} = 5]", "#[{N} = \"x\"]", "#[{N} = a::b]"] {
+            for name in &names {
+                for other in others {
+                    for nv_first in [true, false] {
+                        let nv_attr = nv.replace("{N}", name);
+                        let rest = other.replace("{N}", &names[0]);
+                        let base_src = format!("{prefix}{rest} {suffix}");
+                        let src = if nv_first { format!("{prefix}{nv_attr} {rest} {suffix}") } else { format!("{prefix}{rest} {nv_attr} {suffix}") };
+                        let at = src.find(&nv_attr).map(|b| src[..b].chars().count()).unwrap_or(0);
+                        let region = (at, at + nv_attr.chars().count());
+                        let leaves_of = |o: &Obs| -> Option<Vec<crate::run::LeafObs>> {
+                            match o {
+                                Obs::Ok(_) => Some(vec![]),
+                                Obs::Err { leaves, .. } => Some(leaves.clone()),
+                                _ => None,
+                            }
+                        };
+                        let (b, w) = ((e.run)(&base_src), (e.run)(&src));
+                        t.evaluations += 1;
+                        t.hit("claimed_name_value_attributes");
+                        let complaint = match (leaves_of(&b), leaves_of(&w), &w) {
+                            (_, _, Obs::Panic(p)) => Some(format!("panicked: {p}")),
+                            (Some(bl), Some(wl), _) => {
+                                // multiset difference on the rendered text (columns shift with the insertion)
+                                let mut rest: Vec<&str> = bl.iter().map(|x| x.display.as_str()).collect();
+                                let mut extra: Vec<&crate::run::LeafObs> = vec![];
+                                for l in &wl {
+                                    match rest.iter().position(|d| *d == l.display) {
+                                        Some(p) => {
+                                            rest.swap_remove(p);
+                                        }
+                                        None => extra.push(l),
+                                    }
+                                }
+                                if wl.len() != bl.len() + 1 || extra.len() != 1 {
+                                    Some(format!("{} leaves with the name-value attribute, {} without it: exactly one more was expected ({:?})", wl.len(), bl.len(), wl.iter().map(|l| &l.display).collect::<Vec<_>>()))
+                                } else {
+                                    match extra[0].span {
+                                        Some(sp) if crate::spans::within(sp, region) => None,
+                                        other => Some(format!("the leaf for the name-value attribute (`{}`) is spanned at {other:?}, the attribute is at {region:?}", extra[0].display)),
+                                    }
+                                }
+                            }
+                            _ => None,
+                        };
+                        if let Some(c) = complaint {
+                            t.violate(Violation {
+                                key: format!("C08 family=[{}] src=`{src}` :: {c}", e.prog.family),
+                                what: format!("[{}] `{src}`: {c}", e.prog.family),
+                                case: json!({"engine": "corpus-attrs", "program": idx, "src": src, "items": []}),
+                                detail: json!({}),
+                            });
+                        }
+                    }
+                }
+            }
+        }
+    }
     // many attributes: nine occurrences of the `multiple` member (order and count observable), one
     // per attribute, under every rotation of the declared names, bare and with a foreign attribute
     // after each
